@@ -123,7 +123,7 @@ func gkey(byName bool, name string, dims []string, tags models.Tags) string {
 	if byName {
 		b, n = "1", kit.Esc(name)
 	}
-	// a dimension listed twice (groupBy('host','host')) spells the same group (since fix a050cea the implementation
+	// a dimension listed twice (groupBy('host','host')) spells the same group (since fix 6ba92e9 the implementation
 	// keeps it once as well; before, only the window node's batch header did): the key lists every dimension once
 	var ps []string
 	seen := map[string]bool{}
@@ -375,7 +375,7 @@ var nodeDefs = map[string]nodeDef{
 	"alertmod":   {"|alert()\n    .crit(lambda: count() %% %d == 0)\n    .levelField('o')", false, 1},
 	"sum":        {"|sum('v')\n    .as('o')", false, 0},
 	"count":      {"|count('v')\n    .as('o')", false, 0},
-	// a lambda var used as a nested lambda node: its ExecutionState is per CopyReset copy = per group since fix dcda92d
+	// a lambda var used as a nested lambda node: its ExecutionState is per CopyReset copy = per group since fix 8ed14ac
 	// (it was one for all groups: former finding nested-lambda-state-shared), like the outer expression's own count()
 	"wherenested": {"|where(lambda: nl AND count() %% 2 == 1)", false, 0},
 	"evalnested":  {"|eval(lambda: nc * 1000 + count())\n    .as('o')", false, 0},
